@@ -323,6 +323,7 @@ int main(int argc, char **argv) {
   long per_history_timeout = getenv("DSA_TIMEOUT") ? atol(getenv("DSA_TIMEOUT")) : (g_random ? 60 : 10);
   long ncrash = 0, ntimeouts = 0, skipped = 0;
   const long max_timeouts = 4;  // a tree on which histories hang: do not wait a timeout for each of them
+  const long max_crashes  = getenv("DSA_MAX_CRASHES") ? atol(getenv("DSA_MAX_CRASHES")) : 6000;  // ~20 ms each
 
   auto crash_record = [&](const Job &job, const std::string &kind, const std::string &rep) {
     J rec = J::Obj();
@@ -414,10 +415,10 @@ int main(int argc, char **argv) {
       g_sh->evlen = 0;
       crash_record(load_job(bad), classify(rep, status), rep);
       from = bad + 1;
-      if (ntimeouts >= max_timeouts) break;
+      if (ntimeouts >= max_timeouts || ncrash >= max_crashes) break;
     }
     pos = end;
-    if (ntimeouts >= max_timeouts) { skipped = g_njobs - pos; break; }
+    if (ntimeouts >= max_timeouts || ncrash >= max_crashes) { skipped = g_njobs - pos; break; }
   }
   unlink(errp.c_str());
   close(ofd);
